@@ -75,6 +75,15 @@ def unicode_names(extra_pool=()):
     return st.one_of(ident_names(), st.sampled_from(pool).map(_no_lead_apostrophe), free, unicode_identifier_like())
 
 
+def any_unicode_names():
+    """JSON-based formats: no restriction on characters - control characters, line breaks, NUL ...  Excluded: lone
+    surrogates (not Unicode scalar values, cannot be encoded) and a *leading* apostrophe (library-wide marker of a
+    string literal in constraint terms - DESIGN 3.3)."""
+    pool = ["\n", "a\nb", "\t", "\x00", "a\x00b", "\r\n", "q'", "a'b'", "\x1b[0m", "\x7f", "\u2028", "\ufeffbom", "\\n"]
+    free = st.text(alphabet=st.characters(blacklist_categories=("Cs",)), min_size=1, max_size=6).map(_no_lead_apostrophe)
+    return st.one_of(unicode_names(), unicode_names(), st.sampled_from(pool), free)
+
+
 def unicode_names_nodot(extra_pool=()):
     return unicode_names(extra_pool).map(lambda s: s.replace(".", "·"))
 
@@ -433,7 +442,7 @@ def _ctc_names_unicode(draw, j):
     return draw(st.one_of(st.just(f"C{j}"), unicode_names().map(lambda s: f"{s}#{j}")))
 
 
-JSON = Profile(unicode_names(), single=("mandatory", "optional"),
+JSON = Profile(any_unicode_names(), single=("mandatory", "optional"),
                group=("alternative", "or", "mutex", "card"), layout="free", attrs=_json_attrs,
                ctc_depth=4, ctc_max=4, ctc_names=_ctc_names_unicode, variants=VARIANTS_TEXT)
 
@@ -442,7 +451,7 @@ def _ctc_names_distinct(draw, j):
     return draw(st.one_of(st.just(f"C{j}"), unicode_names().map(lambda s: f"{s}#{j}")))
 
 
-GLENCOE = Profile(unicode_names(), single=("mandatory", "optional"),
+GLENCOE = Profile(any_unicode_names(), single=("mandatory", "optional"),
                   group=("alternative", "or", "mutex", "card"), layout="one_group", group_plus_mandatory=True,
                   abstract=False, ctc_depth=3, ctc_max=4, ctc_names=_ctc_names_distinct, variants=VARIANTS_TEXT)
 
@@ -605,7 +614,7 @@ def _glencoe_ctc(draw, names, feats):
     return draw(expr_of_depth(names, logic.LOGICAL, draw(st.integers(0, 3))))
 
 
-GLENCOE_3P = Profile(unicode_names(), single=("mandatory", "optional"), group=("alternative", "or", "mutex", "card"),
+GLENCOE_3P = Profile(any_unicode_names(), single=("mandatory", "optional"), group=("alternative", "or", "mutex", "card"),
                      layout="one_group", group_plus_mandatory=True, abstract=False, ctc_max=4,
                      ctc_expr=_glencoe_ctc, ctc_names=_ctc_names_distinct, variants=VARIANTS_TEXT)
 
